@@ -7,7 +7,7 @@
      the final structural check (what onnx.checker enforces structurally), the additional-inputs KeyError.
    No proofs in this file. *)
 From Coq Require Import List String NArith Arith Bool Ascii.
-From Spox Require Import Base IR.
+From Spox Require Import Base IR Show.
 Import ListNotations.
 Open Scope string_scope.
 
@@ -200,57 +200,174 @@ Definition node_req (p : prog) (u : nref) : req :=
                | KInline _ imps => (imps ++ [("", INTERNAL_MIN_OPSET)])%list
                | _ => [(domain (getn p n), version (getn p n))] end end.
 
+(* ---------- inlined models: _Inline.to_onnx / rename_in_graph ---------- *)
+Fixpoint index_last (x : string) (l : list string) (i : nat) (acc : option nat) : option nat :=
+  match l with [] => acc | y :: t => index_last x t (S i) (if String.eqb x y then Some i else acc) end.
+Definition rstate := (scope * list (string * string) * list (string * string))%type.   (* scope, inner_renames, inner_node_renames *)
+
+Definition reserve_prefixed (nm : string) (sc : scope) (name : string) : res (string * scope) :=
+  if String.eqb name "" then ret ("", sc) else
+  let '(r, vc) := maybe_enum (vcnt sc) (nm ++ "__" ++ name) in
+  let sc := with_vcnt sc vc in
+  if (mem String.eqb r (reserved sc) || mem String.eqb r (map snd (vname sc)))%bool then raise EScope
+  else ret (r, with_reserved sc (reserved sc ++ [r])%list).
+
+Section Inline.
+Variable nm : string.                    (* scope.node[self] *)
+Variable u : nref.
+Variable operands : list (option var).   (* self.inputs.inputs *)
+Variable in_names out_names : list string.
+
+Definition rename_val (st : rstate) (name : string) : res (string * rstate) :=
+  let '(sc, vt, nt) := st in
+  match index_last name in_names 0 None with
+  | Some i => match nth i operands None with Some v => do r <- vlook sc v ;; ret (r, st) | None => raise EKey end
+  | None =>
+    match index_last name out_names 0 None with
+    | Some k => do r <- vlook sc (V u k) ;; ret (r, st)
+    | None =>
+      match lookup String.eqb name vt with
+      | Some r => ret (r, st)
+      | None => do rs <- reserve_prefixed nm sc name ;; ret (fst rs, (snd rs, ((name, fst rs) :: vt)%list, nt))
+      end end end.
+Definition rename_node (st : rstate) (name : string) : res (string * rstate) :=
+  let '(sc, vt, nt) := st in
+  if String.eqb name "" then ret ("", st) else
+  match lookup String.eqb name nt with
+  | Some r => ret (r, st)
+  | None => do rs <- reserve_prefixed nm sc name ;; ret (fst rs, (snd rs, vt, ((name, fst rs) :: nt)%list))
+  end.
+Fixpoint mapS {A} (f : rstate -> A -> res (string * rstate)) (st : rstate) (l : list A) : res (list string * rstate) :=
+  match l with [] => ret ([], st) | x :: t => do r <- f st x ;; do r2 <- mapS f (snd r) t ;; ret (fst r :: fst r2, snd r2) end.
+
+Fixpoint rename_onode (st : rstate) (n : onode) {struct n} : res (mraw * rstate) :=
+  match n with ONode name op dom i o sl =>
+    do rn <- rename_node st name ;;
+    do ri <- mapS rename_val (snd rn) i ;;
+    do ro <- mapS rename_val (snd ri) o ;;
+    do rs <- (fix go (st : rstate) (l : list (string * option ograph)) {struct l} : res (list (string * option mrawgraph) * rstate) :=
+               match l with
+               | [] => ret ([], st)
+               | (k, Some g) :: t => do rg <- rename_ograph st g ;; do rt <- go (snd rg) t ;; ret ((k, Some (fst rg)) :: fst rt, snd rt)
+               | (k, None) :: t => do rt <- go st t ;; ret ((k, None) :: fst rt, snd rt)
+               end) (snd ro) sl ;;
+    ret (MRaw (fst rn) op dom (fst ri) (fst ro) (fst rs), snd rs)
+  end
+with rename_ograph (st : rstate) (g : ograph) {struct g} : res (mrawgraph * rstate) :=
+  match g with OGraph gi ginit body go_ vi =>
+    do ri <- mapS rename_val st gi ;;
+    do rinit <- mapS rename_val (snd ri) ginit ;;
+    do rb <- (fix go (st : rstate) (l : list onode) {struct l} : res (list mraw * rstate) :=
+               match l with
+               | [] => ret ([], st)
+               | n :: t => do rn <- rename_onode st n ;; do rt <- go (snd rn) t ;; ret (fst rn :: fst rt, snd rt)
+               end) (snd rinit) body ;;
+    do ro <- mapS rename_val (snd rb) go_ ;;
+    do rv <- mapS rename_val (snd ro) vi ;;
+    ret (MRawGraph (fst ri) (fst rinit) (fst rb) (fst ro), snd rv)
+  end.
+End Inline.
+
+
+(* what the outer build needs to know about a function body built by its own Builder (fresh Scope) *)
+Record fdesc := { fd_node : nat; fd_domain : string; fd_name : string; fd_inputs : list string; fd_outputs : list string;
+                  fd_attrs : list string; fd_body : list mnode; fd_req : req }.
+
 Section Compile.
 Variable p : prog.
 Variable un : names.
 Variable args_of : nat -> list var.
 Variable own_of : nat -> list nref.   (* scope_own *)
+Variable fbuild : nat -> nat -> res (list mnode * req * list fdesc).   (* node, body graph ↦ body nodes, body requirements, nested functions *)
 
 (* compile_graph + (for subgraphs) the value infos that Graph.to_onnx() computes right after it.
-   Returns the emitted graph, the threaded scope and the opset requirements of this graph (own nodes and subgraphs). *)
-Fixpoint compile (fuel : nat) (s : scope) (g : nat) (prefix : string) (is_main : bool) : res (mgraph * scope * req) :=
+   Returns the emitted graph, the threaded scope, the opset requirements and the functions met (own nodes and subgraphs). *)
+Fixpoint compile (fuel : nat) (s : scope) (g : nat) (prefix : string) (is_main : bool) : res (mgraph * scope * req * list fdesc) :=
   match fuel with O => raise EFuel | S f =>
   do s1 <- foldM (fun s a => scope_update p un s (vnode a) prefix) (args_of g) s ;;
-  do r <- foldM (fun (acc : list mnode * scope * req) (u : nref) =>
-      let '(ms, s, rq) := acc in
+  do r <- foldM (fun (acc : list mnode * scope * req * list fdesc * list fdesc) (u : nref) =>
+      let '(ms, s, rq, fs, sfs) := acc in
       if is_arg p u then ret acc else
-      let rq := union req_eqb rq (node_req p u) in
-      do s2 <- scope_update p un s u prefix ;;
       match u with
       | NIntro g' =>
+          let rq := union req_eqb rq (node_req p u) in
+          do s2 <- scope_update p un s u prefix ;;
           do nm <- nlook s2 u ;;
           do i <- mapM (fun kv : string * var => vlook s2 (snd kv)) (gres (getg p g')) ;;
           do o <- mapM (fun k => vlook s2 (V u k)) (seqn 0 (List.length (gres (getg p g')))) ;;
-          ret ((ms ++ [MIntro nm u i o])%list, s2, rq)
+          ret ((ms ++ [MIntro nm u i o])%list, s2, rq, fs, sfs)
       | NReal n =>
           let nd := getn p n in
+          (* update_metadata (opset requirements, functions) comes before Scope.update *)
+          do meta <- match kind nd with
+                     | KFunc body _ _ _ =>
+                         do b <- fbuild n body ;;
+                         let '(bnodes, brq, bfs) := b in
+                         ret (union req_eqb (union req_eqb rq [(domain nd, version nd)]) brq,
+                              (fs ++ {| fd_node := n; fd_domain := domain nd; fd_name := ident nd;
+                                        fd_inputs := match kind nd with KFunc _ a _ _ => a | _ => [] end;
+                                        fd_outputs := match kind nd with KFunc _ _ b _ => b | _ => [] end;
+                                        fd_attrs := match kind nd with KFunc _ _ _ c => c | _ => [] end;
+                                        fd_body := bnodes; fd_req := brq |} :: bfs)%list)
+                     | _ => ret (union req_eqb rq (node_req p u), fs)
+                     end ;;
+          let '(rq, fs) := meta in
+          do s2 <- scope_update p un s u prefix ;;
           match kind nd with
           | KArg => ret acc
-          | KInit => do o <- vlook s2 (V u 0) ;; ret ((ms ++ [MInit o u])%list, s2, rq)
-          | KOp =>
+          | KInit => do o <- vlook s2 (V u 0) ;; ret ((ms ++ [MInit o u])%list, s2, rq, fs, sfs)
+          | KInline om _ =>
+            do nm <- nlook s2 u ;;
+            match om with OGraph gi _ body go_ vi =>
+              let rv := rename_val nm u (ins nd) gi go_ in
+              do ri <- mapS rv (s2, [], []) gi ;;
+              do rb <- (fix go (st : rstate) (l : list onode) {struct l} : res (list mraw * rstate) :=
+                         match l with
+                         | [] => ret ([], st)
+                         | n :: t => do rn <- rename_onode nm u (ins nd) gi go_ st n ;; do rt <- go (snd rn) t ;; ret (fst rn :: fst rt, snd rt)
+                         end) (snd ri) body ;;
+              do ro <- mapS rv (snd rb) go_ ;;
+              do rvi <- mapS rv (snd ro) vi ;;
+              let s3 := fst (fst (snd rvi)) in
+              (* pass-through outputs (an output that is also an input) are defined by an Identity *)
+              do ids <- mapM (fun k =>
+                          let name := nth k go_ "" in
+                          match index_last name go_ 0 None, index_last name gi 0 None with
+                          | Some k', Some i =>
+                              if Nat.eqb k k' then
+                                match nth i (ins nd) None with
+                                | Some v => do a <- vlook s3 v ;; do b <- vlook s3 (V u k) ;; ret [MRaw "" "Identity" "" [a] [b] []]
+                                | None => raise EKey end
+                              else ret []
+                          | _, _ => ret [] end) (seqn 0 (List.length go_)) ;;
+              do inn <- mapM (fun ov => match ov with Some v => vlook s3 v | None => ret "" end) (ins nd) ;;
+              do outn <- mapM (fun i => vlook s3 (V u i)) (seqn 0 (List.length (outs nd))) ;;
+              ret ((ms ++ [MInline nm u inn outn (fst rb ++ List.concat ids)%list])%list, s3, rq, fs, sfs)
+            end
+          | KOp | KFunc _ _ _ _ =>
             do nm <- nlook s2 u ;;
             do inn <- mapM (fun ov => match ov with Some v => vlook s2 v | None => ret "" end) (ins nd) ;;
             do outn <- mapM (fun i => vlook s2 (V u i)) (seqn 0 (List.length (outs nd))) ;;
-            do sg <- foldM (fun (acc : list (string * option mgraph) * scope * req) (ka : string * attrv) =>
-                     let '(l, s, rq) := acc in
+            do sg <- foldM (fun (acc : list (string * option mgraph) * scope * req * list fdesc) (ka : string * attrv) =>
+                     let '(l, s, rq, fs) := acc in
                      match snd ka with
-                     | AVal _ => ret ((l ++ [(fst ka, None)])%list, s, rq)
+                     | AVal _ => ret ((l ++ [(fst ka, None)])%list, s, rq, fs)
                      | AGraph sub =>
                        do r <- compile f s sub (nm ++ "_" ++ fst ka ++ "__") false ;;
-                       let '(mg, s', rq') := r in
-                       ret ((l ++ [(fst ka, Some mg)])%list, s', union req_eqb rq rq')
-                     end) (attrs nd) ([], s2, rq) ;;
-            let '(al, s3, rq3) := sg in
-            ret ((ms ++ [MNode nm (ident nd) (domain nd) u (trim (min_in nd) inn) (trim (min_out nd) outn) al])%list, s3, rq3)
-          | _ => raise EInternal     (* inline / function nodes are handled in BuildExt.v *)
+                       let '(mg, s', rq', fs') := r in
+                       ret ((l ++ [(fst ka, Some mg)])%list, s', union req_eqb rq rq', (fs ++ fs')%list)
+                     end) (attrs nd) ([], s2, rq, sfs) ;;
+            let '(al, s3, rq3, sfs3) := sg in
+            ret ((ms ++ [MNode nm (ident nd) (domain nd) u (trim (min_in nd) inn) (trim (min_out nd) outn) al])%list, s3, rq3, fs, sfs3)
           end
-      end) (own_of g) ([], s1, []) ;;
-  let '(ms, s3, rq) := r in
+      end) (own_of g) ([], s1, [], [], []) ;;
+  let '(ms, s3, rq, fs0, sfs) := r in
+  let fs := (fs0 ++ sfs)%list in   (* functions of subgraphs are appended after the graph's own *)
   let nres := List.length (gres (getg p g)) in
   if Nat.eqb nres 0 then raise EValue else
   do ai <- mapM (value_info p is_main s3) (args_of g) ;;
   do ro <- mapM (value_info p is_main s3) (map (V (NIntro g)) (seqn 0 nres)) ;;
-  ret (MGraph ai ms ro, s3, rq)
+  ret (MGraph ai ms ro, s3, rq, fs)
   end.
 End Compile.
 
@@ -267,97 +384,125 @@ Definition max_opset_policy (r : req) : list (string * nat) :=
   fold_left (fun acc dv => insert_sorted (fold_domain (fst dv)) (snd dv) acc) r [].
 
 (* ---------- what onnx.checker.check_model enforces structurally (probed against onnx 1.22) ---------- *)
-Definition node_inputs (n : mnode) : list string :=
-  match n with MNode _ _ _ _ i _ _ => i | MInit _ _ => [] | MIntro _ _ i _ => i | MRaw _ _ _ _ i _ _ => i end.
-Definition node_outputs (n : mnode) : list string :=
-  match n with MNode _ _ _ _ _ o _ => o | MInit o _ => [o] | MIntro _ _ _ o => o | MRaw _ _ _ _ _ o _ => o end.
 Definition nonempty (l : list string) : list string := filter (fun x => negb (String.eqb x "")) l.
 Definition is_init (n : mnode) : bool := match n with MInit _ _ => true | _ => false end.
 
-(* [outer]: names visible from enclosing graphs at this point.  Initializers are visible from the start of the graph. *)
-Fixpoint check_graph (fuel : nat) (outer : list string) (g : mgraph) : bool :=
-  match fuel with O => false | S f =>
-  match g with MGraph gi body go =>
-    let inits := flat_map (fun n => if is_init n then node_outputs n else []) body in
-    let start := (map fst gi ++ inits)%list in
-    nodupb String.eqb start &&
-    forallb (fun x => negb (mem String.eqb x outer)) start &&
-    (let fix go_nodes (defd : list string) (l : list mnode) : option (list string) :=
-       match l with
-       | [] => Some defd
-       | n :: t =>
-         if is_init n then go_nodes defd t else
-         let ins := nonempty (node_inputs n) in
-         let outs := nonempty (node_outputs n) in
-         if forallb (fun x => mem String.eqb x defd || mem String.eqb x outer) ins
-            && forallb (fun x => negb (mem String.eqb x defd || mem String.eqb x outer)) outs
-            && nodupb String.eqb outs
-            && match n with
-               | MNode _ _ _ _ _ _ al =>
-                   forallb (fun ka => match snd ka with Some sg => check_graph f (defd ++ outer)%list sg | None => true end) al
-               | MRaw _ _ _ _ _ _ sl => forallb (fun ks => check_raw f (defd ++ outer)%list (snd ks)) sl
-               | _ => true end
-         then go_nodes (defd ++ outs)%list t else None
-       end in
-     match go_nodes start body with
-     | None => false
-     | Some defd => forallb (fun o => mem String.eqb (fst o) defd || mem String.eqb (fst o) outer) go
-     end)
-  end end
-with check_raw (fuel : nat) (outer : list string) (g : mraw) : bool :=
-  match fuel with O => false | S f =>
-  match g with MRawGraph gi body go =>
-    nodupb String.eqb gi && forallb (fun x => negb (mem String.eqb x outer)) gi &&
-    (let fix go_nodes (defd : list string) (l : list mnode) : option (list string) :=
-       match l with
-       | [] => Some defd
-       | n :: t =>
-         let ins := nonempty (node_inputs n) in
-         let outs := nonempty (node_outputs n) in
-         if forallb (fun x => mem String.eqb x defd || mem String.eqb x outer) ins
-            && forallb (fun x => negb (mem String.eqb x defd || mem String.eqb x outer)) outs
-            && nodupb String.eqb outs
-            && match n with
-               | MRaw _ _ _ _ _ _ sl => forallb (fun ks => check_raw f (defd ++ outer)%list (snd ks)) sl
-               | _ => true end
-         then go_nodes (defd ++ outs)%list t else None
-       end in
-     match go_nodes gi body with
-     | None => false
-     | Some defd => forallb (fun o => mem String.eqb o defd || mem String.eqb o outer) go
-     end)
+Section Check.
+(* one pass over a node list: every input visible, every output fresh, subgraphs checked with what is visible so far *)
+Fixpoint check_raws (fuel : nat) (outer defd : list string) (l : list mraw) : option (list string) :=
+  match fuel with O => None | S f =>
+  match l with
+  | [] => Some defd
+  | MRaw _ _ _ i o sl :: t =>
+      let ins := nonempty i in let outs := nonempty o in
+      if forallb (fun x => mem String.eqb x defd || mem String.eqb x outer) ins
+         && forallb (fun x => negb (mem String.eqb x defd || mem String.eqb x outer)) outs
+         && nodupb String.eqb outs
+         && forallb (fun ks => match snd ks with None => true | Some (MRawGraph gi ginit b go_) =>
+               let start := (gi ++ ginit)%list in
+               nodupb String.eqb start && forallb (fun x => negb (mem String.eqb x defd || mem String.eqb x outer)) start &&
+               match check_raws f (defd ++ outer)%list start b with
+               | Some d => forallb (fun x => mem String.eqb x d || mem String.eqb x defd || mem String.eqb x outer) go_
+               | None => false end end) sl
+      then check_raws f outer (defd ++ outs)%list t else None
   end end.
 
-Fixpoint depth_node (n : mnode) : nat :=
+Fixpoint check_nodes (fuel : nat) (outer defd : list string) (l : list mnode) : option (list string) :=
+  match fuel with O => None | S f =>
+  match l with
+  | [] => Some defd
+  | n :: t =>
+    match n with
+    | MInit _ _ => check_nodes f outer defd t
+    | MNode _ _ _ _ i o al =>
+      let ins := nonempty i in let outs := nonempty o in
+      if forallb (fun x => mem String.eqb x defd || mem String.eqb x outer) ins
+         && forallb (fun x => negb (mem String.eqb x defd || mem String.eqb x outer)) outs
+         && nodupb String.eqb outs
+         && forallb (fun ka => match snd ka with
+                               | Some (MGraph gi b go_) =>
+                                   let inits := flat_map (fun n => match n with MInit nm _ => [nm] | _ => [] end) b in
+                                   let start := (map fst gi ++ inits)%list in
+                                   nodupb String.eqb start
+                                   && forallb (fun x => negb (mem String.eqb x defd || mem String.eqb x outer)) start
+                                   && match check_nodes f (defd ++ outer)%list start b with
+                                      | Some d => forallb (fun x => mem String.eqb (fst x) d || mem String.eqb (fst x) defd || mem String.eqb (fst x) outer) go_
+                                      | None => false end
+                               | None => true end) al
+      then check_nodes f outer (defd ++ outs)%list t else None
+    | MIntro _ _ i o =>
+      if forallb (fun x => mem String.eqb x defd || mem String.eqb x outer) i
+         && forallb (fun x => negb (mem String.eqb x defd || mem String.eqb x outer)) o && nodupb String.eqb o
+      then check_nodes f outer (defd ++ o)%list t else None
+    | MInline _ _ _ _ body =>
+      match check_raws (S (S (List.length body)) * S f) outer defd body with
+      | Some d => check_nodes f outer d t
+      | None => None end
+    end
+  end end.
+End Check.
+
+Fixpoint size_raw (n : mraw) : nat :=
+  match n with MRaw _ _ _ _ _ sl =>
+    S (fold_left (fun d ks => d + match snd ks with Some (MRawGraph _ _ b _) => S (fold_left (fun d n => d + size_raw n) b 0) | None => 0 end) sl 0) end.
+Fixpoint size_node (n : mnode) : nat :=
   match n with
-  | MNode _ _ _ _ _ _ al => S (fold_left (fun d ka => match snd ka with Some g => Nat.max d (depth_graph g) | None => d end) al 0)
-  | MRaw _ _ _ _ _ _ sl => S (fold_left (fun d ks => Nat.max d (depth_raw (snd ks))) sl 0)
+  | MNode _ _ _ _ _ _ al => S (fold_left (fun d ka => match snd ka with Some g => d + size_graph g | None => d end) al 0)
+  | MInline _ _ _ _ b => S (fold_left (fun d n => d + size_raw n) b 0)
   | _ => 1 end
-with depth_graph (g : mgraph) : nat :=
-  match g with MGraph _ body _ => S (fold_left (fun d n => Nat.max d (depth_node n)) body 0) end
-with depth_raw (g : mraw) : nat :=
-  match g with MRawGraph _ body _ => S (fold_left (fun d n => Nat.max d (depth_node n)) body 0) end.
-Definition struct_check (g : mgraph) : bool := check_graph (S (depth_graph g)) [] g.
+with size_graph (g : mgraph) : nat :=
+  match g with MGraph _ body _ => S (fold_left (fun d n => d + size_node n) body 0) end.
 
-(* ---------- Builder.build_main for a program whose graph 0 is the main graph ---------- *)
-Record built := { b_graph : mgraph; b_scope : scope; b_req : req; b_args : list var }.
+Definition struct_check (g : mgraph) : bool :=
+  match g with MGraph gi b go_ =>
+    let inits := flat_map (fun n => match n with MInit nm _ => [nm] | _ => [] end) b in
+    let start := (map fst gi ++ inits)%list in
+    nodupb String.eqb start &&
+    forallb (fun x => negb (String.eqb x "")) (map fst gi ++ map fst go_)%list &&     (* "" is not a value name *)
+    match check_nodes (S (size_graph g)) [] start b with
+    | Some d => forallb (fun x => mem String.eqb (fst x) d) go_
+    | None => false end
+  end.
 
-Definition build_main (p : prog) (un : names) : res built :=
+(* ---------- Builder.build_main with graph [main] as the main graph ---------- *)
+Record built := { b_graph : mgraph; b_scope : scope; b_req : req; b_args : list var; b_funs : list fdesc }.
+
+Definition body_nodes (g : mgraph) : list mnode := match g with MGraph _ b _ => b end.
+
+Fixpoint build_main (ffuel : nat) (p : prog) (un : names) (main : nat) : res built :=
+  match ffuel with O => raise EFuel | S ff =>
   let F := fuel_of p in
-  do d <- discover F p dstate0 0 ;;
+  do d <- discover F p dstate0 main ;;
   let gtopo := rev (d_post d) in
   let sc := fold_left (update_scope_tree p (d_own d)) gtopo [] in
-  let topo := postorder (2 * F) (full_adj p) (NIntro 0) in
+  let topo := postorder (2 * F) (full_adj p) (NIntro main) in
   let own_of g := filter (fun u => match lookup nref_eqb u sc with Some s => Nat.eqb s g | None => false end) topo in
   let args_of g := getl g (d_args d) in
-  do r <- compile p un args_of own_of F scope0 0 "" true ;;
-  let '(mg, s, rq) := r in
-  ret {| b_graph := mg; b_scope := s; b_req := rq; b_args := args_of 0 |}.
+  (* a function body is built by its own Builder with a fresh Scope; its result identities are named after its outputs *)
+  let fbuild (n body : nat) : res (list mnode * req * list fdesc) :=
+    let unb := (un ++ map (fun ik => (V (NIntro body) (fst ik), fst (snd ik)))
+                        (combine (seqn 0 (List.length (gres (getg p body)))) (gres (getg p body))))%list in
+    do b <- build_main ff p unb body ;;
+    ret (body_nodes (b_graph b), b_req b, b_funs b) in
+  do r <- compile p un args_of own_of fbuild F scope0 main "" true ;;
+  let '(mg, s, rq, fs) := r in
+  ret {| b_graph := mg; b_scope := s; b_req := rq; b_args := args_of main; b_funs := fs |}
+  end.
 
-(* Graph.to_onnx_model on the result *)
+(* Graph.to_onnx_model on the result: one FunctionProto per (domain, name), RuntimeError on two different definitions *)
+Definition function_proto (model_imports : list (string * nat)) (f : fdesc) : mfunction :=
+  {| f_domain := fd_domain f; f_name := fd_name f; f_inputs := fd_inputs f; f_outputs := fd_outputs f; f_attrs := fd_attrs f;
+     f_body := fd_body f; f_imports := max_opset_policy (fd_req f ++ model_imports)%list |}.
+Definition fkey_eqb (a b : mfunction) := String.eqb (f_domain a) (f_domain b) && String.eqb (f_name a) (f_name b).
+
 Definition to_model (b : built) : res model :=
   let imports := max_opset_policy (b_req b) in
-  if struct_check (b_graph b) then ret {| mmain := b_graph b; mimports := imports; mfunctions := [] |}
+  do funs <- foldM (fun acc f =>
+               let pr := function_proto imports f in
+               match find (fkey_eqb pr) acc with
+               | Some old => if String.eqb (show_function old) (show_function pr) then ret acc else raise ERuntime
+               | None => ret (acc ++ [pr])%list end) (b_funs b) [] ;;
+  if struct_check (b_graph b) then ret {| mmain := b_graph b; mimports := imports; mfunctions := funs |}
   else raise EValidation.
 
 (* ---------- the public build() ---------- *)
@@ -376,13 +521,14 @@ Definition build_public (p : prog) (r : request) : res model :=
   let un0 := fold_left (fun acc kv => set_assoc var_eqb (snd kv) (fst kv) acc) inputs [] in
   let un := (un0 ++ map (fun ik => (V (NIntro 0) (fst ik), fst (snd ik))) (combine (seqn 0 (List.length outputs)) outputs))%list in
   let ivars := map snd inputs in
+  let FF := S (List.length (graphs p)) in
   do args <- (if r_drop r then
                 (* first build without requested arguments, then request the used inputs in the given order *)
-                do b1 <- build_main (with_main p None outputs) un ;;
+                do b1 <- build_main FF (with_main p None outputs) un 0 ;;
                 let used := b_args b1 in
                 ret (filter (fun v => mem var_eqb v used) ivars ++ filter (fun v => negb (mem var_eqb v ivars)) used)%list
               else ret ivars) ;;
-  do b <- build_main (with_main p (Some args) outputs) un ;;
+  do b <- build_main FF (with_main p (Some args) outputs) un 0 ;;
   do m <- to_model b ;;
   match mmain m with MGraph gi _ _ =>
     if forallb (fun i => mem String.eqb (fst i) (map fst inputs)) gi then ret m else raise EKey
